@@ -32,9 +32,12 @@ static const char *PAT[NPAT] = { "t", "u", "^t.*", ".", M_PS_CTX_STARTED, M_PS_C
 static int pat_match[NPAT][NTOPIC];       /* computed with the same regcomp flags the library uses */
 
 enum { PR_LOW, PR_NORM, PR_HIGH };
-typedef struct { int present, prio, oneshot, upver; } sub_t;
+typedef struct { int present, prio, oneshot, upver, dup, af; } sub_t;
 static char UPV[NM][NPAT][2];             /* user pointers given at subscription (identity only) */
 static char SRCUP[NM][16];
+static void *SRCUPH[NM][16];              /* heap user data of sources registered with M_SRC_AUTOFREE (NULL otherwise); owned by the library once the registration succeeded */
+static void *UPVH[NM][NPAT];               /* same for subscriptions */
+#define SRCUPP(s, j) (SRCUPH[s][j] ? (const void *)SRCUPH[s][j] : (const void *)&SRCUP[s][j])
 static char PATHS[2][64]; static int CHILD[2];   /* path and pid keys (created once per worker) */                /* user pointers of non-ps sources */
 
 /* messages */
